@@ -196,7 +196,9 @@ class Application(object):
         for entry in routes:
             self.add(entry)
 
-        all_mws = _get_all_middlewares(self.routes)
+        # the null route carries the application-level middlewares even
+        # when no route has been added (yet)
+        all_mws = _get_all_middlewares(self.routes + [self._null_route])
         for mw in reversed(all_mws):
             self._dispatch_wsgi = _safe_wrap_wsgi('middleware', mw, self._dispatch_wsgi)
         return
